@@ -411,9 +411,9 @@ def np_norm(eng, args, kwargs):
     axis = kwargs.get("axis")
     sq = emap(eng, lambda x: eng.binop(ast.Mult(), x, x), a)
     if axis is None:
-        return eng.sqrt(np_sum(eng, [sq], {}))
+        return eng.sqrt(np_sum(eng, [sq], {}), nonneg_known=True)
     s = np_sum(eng, [sq], {"axis": axis})
-    return emap(eng, lambda x: eng.sqrt(x), s, kind="real")
+    return emap(eng, lambda x: eng.sqrt(x, nonneg_known=True), s, kind="real")
 
 
 def np_eye(eng, args, kwargs):
@@ -571,6 +571,9 @@ def np_clip(eng, args, kwargs):
 
 def _close(eng, a, b, rtol, atol):
     k = "real"
+    if getattr(eng, "exact_tolerances", False):
+        eng.assumptions.add("np.isclose/np.allclose treated as exact equality (tolerance bands collapsed over the reals)")
+        return eng.compare(ast.Eq(), a, b)
     az, bz = to_z3(a, k), to_z3(b, k)
     d = z3.If(az - bz >= 0, az - bz, bz - az)
     ab = z3.If(bz >= 0, bz, -bz)
@@ -654,7 +657,20 @@ def np_outer(eng, args, kwargs):
     return NArr((len(a.items), len(b.items)), out, "real")
 
 
+def np_random_rand(eng, args, kwargs):
+    eng.assumptions.add("np.random.rand: arbitrary reals in (0, 1) (the measure-zero draw 0.0 is ignored)")
+    n = args[0] if args else None
+    def one():
+        v = fresh("real", "rand")
+        eng.assume(z3.And(v.z > 0, v.z < 1))
+        return v
+    if n is None:
+        return one()
+    return NArr((n,), [one() for _ in range(n)], "real")
+
+
 NP_MODELS = {
+    np.random.rand: np_random_rand,
     np.dot: np_dot, np.matmul: np_dot, np.cross: np_cross, np.linalg.norm: np_norm, np.eye: np_eye, np.identity: np_eye,
     np.zeros: np_zeros, np.ones: np_ones, np.full: np_full, np.stack: np_stack, np.concatenate: np_concatenate,
     np.sum: np_sum, np.sqrt: np_sqrt, np.cos: np_cos, np.sin: np_sin, np.arccos: _uninterp("arccos"),
